@@ -1,124 +1,193 @@
 """C08 - result views expose exactly the attributes of the selected view.
 (M) Views.tla model-checked exhaustively over the graph catalogue (flat, nested with per-attribute view
-overrides, collection, recursive) x views chosen by the service or fixed in the design x values x a response
-labelled with an undefined view; (G) every case runs through the real generated server and client: body keys
-on the wire (recursively), the goa-view header and the fields set on the client's result are compared with
-the model's projection."""
+overrides, top-level and nested collections, recursive) in all its VARIANTS (declaration order of the default view:
+first / last / implicit; which attributes are required and validated: base / by the default view only / by the other
+views only / nested result types required) x views chosen by the service or fixed in the design x values (attributes
+set, one validated attribute possibly carrying an invalid value) x a response labelled with an undefined view;
+(G) every case runs through the real generated server and client: body keys on the wire (recursively), the goa-view
+header, the fields set on the client's result and whether the client delivered / refused / crashed are compared with
+the model's predictions (several where the statement leaves the server a choice).  The designs themselves (types,
+attributes, views in declaration order, required, validations) are emitted by TLC: nothing of the catalogue is
+repeated here."""
 import json
 from vlib import core, httpgen as hg
 
-
-def types_design():
-    def rt(name, attrs, views):
-        return {"name": name, "kind": "result", "attrs": attrs, "views": views}
-    i = lambda n, req=False: {"name": n, "type": {"kind": "int"}, "required": req}
-    s = lambda n: {"name": n, "type": {"kind": "string"}}
-    u = lambda n, t: {"name": n, "type": {"kind": "user", "ref": t}}
-    V = lambda name, attrs: {"name": name, "attrs": [({"name": a} if isinstance(a, str) else {"name": a[0], "view": a[1]}) for a in attrs]}
-    return [
-        rt("T1", [i("a", True), s("b")], [V("default", ["a", "b"]), V("tiny", ["a"])]),
-        rt("U2", [i("x", True), s("y")], [V("default", ["x", "y"]), V("tiny", ["x"])]),
-        rt("T2", [i("a", True), s("b"), u("c", "U2")], [V("default", ["a", "b", ("c", "default")]), V("tiny", ["a"]), V("ext", ["a", ("c", "tiny")])]),
-        {"name": "T2Coll", "kind": "collection", "base": {"kind": "user", "ref": "T2"}},
-        rt("T4", [i("a", True), u("n", "T4")], [V("default", ["a", ("n", "tiny")]), V("tiny", ["a"])]),
-        rt("U5", [i("x", True), s("y")], [V("default", ["x", "y"]), V("tiny", ["x"])]),
-        rt("T5", [i("a", True), u("o", "U5"), u("p", "U5")], [V("default", ["a", ("o", "tiny"), ("p", "default")]), V("tiny", ["a"])]),
-        rt("U6", [i("x", True), s("y")], [V("default", ["x", "y"]), V("tiny", ["x"])]),
-        rt("T6", [i("a", True), dict(u("c", "U6"), view="tiny")], [V("default", ["a", ("c", "default")]), V("tiny", ["a"]), V("ext", ["a", "c"])]),
-        rt("T7", [i("a", True), dict(s("d"), required=True)], [V("default", ["a", "d"]), V("tiny", ["a"])]),
-        {"name": "T7Coll", "kind": "collection", "base": {"kind": "user", "ref": "T7"}},
-        rt("U8", [i("x", True), s("y")], [V("default", ["x", "y"]), V("tiny", ["x"])]),
-        rt("T8", [i("a", True), u("o", "U8"), u("p", "U8"), u("q", "U8"), u("r", "U8")],
-           [V("default", ["a", ("o", "tiny"), ("p", "tiny"), ("q", "tiny"), ("r", "tiny")]), V("tiny", ["a"])]),
-    ]
+GRAPHS = ["G1", "G2", "G3", "G4", "G5", "G6", "G7", "G8", "G9", "G10"]
+KNOWN_DEVIATIONS = ["client.required_user_type_nil_deref", "views.required_nested_result_unchecked"]
+MAXLEN = 3
 
 
-COLL = ("G3", "G7")
-RES = {"G1": "T1", "G2": "T2", "G3": "T2Coll", "G4": "T4", "G5": "T5", "G6": "T6", "G7": "T7Coll", "G8": "T8"}
-VIEWS = {"G1": ["default", "tiny"], "G2": ["default", "tiny", "ext"], "G3": ["default", "tiny", "ext"], "G4": ["default", "tiny"],
-         "G5": ["default", "tiny"], "G6": ["default", "tiny", "ext"], "G7": ["default", "tiny"], "G8": ["default", "tiny"]}
+# ------------------------------------------------------------------ TLC -> graph descriptions and cases
+def vkey(c):
+    """name of a variant: g2ls = graph G2, default view declared last, req mode sel"""
+    return "%s%s%s" % (c["g"].lower(), c["order"][0], c["req"][0])
+
+
+# the known deviations only act where a required attribute has a result type: their predictions are only computed there
+# (a case outside stays unexplained: conservative)
+DEVIATION_REQ_MODES = '{"nest"}'
+
+
+def gen_vectors(ctx, deviations=None, label="Gen Views"):
+    consts = {"AllFixed": "FALSE" if ctx.quick() else "TRUE"}
+    if deviations:   # what the model predicts under named deviations (no invariant but Emit: the property does not hold there)
+        consts.update({"Deviations": "{%s}" % ", ".join('"%s"' % d for d in deviations), "ReqModes": DEVIATION_REQ_MODES})
+        vs = ctx.gen("mc/MC_Views", "gen/Gen_Views_dev.cfg", label=label, consts=consts, workers=2).vectors
+    else:
+        vs = ctx.gen("mc/MC_Views", "gen/Gen_Views.cfg", label=label, consts=consts).vectors
+    descs = {vkey(v["graph"]): v["graph"] for v in vs if "graph" in v}
+    cases = [v for v in vs if "cfg" in v]
+    return descs, cases
+
+
+_CATALOGUE = None
+
+
+def catalogue():
+    """variant name -> description, straight from Views.tla (one private TLC run per process, for callers that only
+    want the designs: C01)"""
+    global _CATALOGUE
+    if _CATALOGUE is None:
+        ctx = core.Ctx("C08", "quick", 1)
+        try:
+            _CATALOGUE = gen_vectors(ctx, label="Gen Views (catalogue)")[0]
+        finally:
+            ctx.cleanup()
+    return _CATALOGUE
+
+
+# ------------------------------------------------------------------ description -> abstract design
+def tname(desc, t):
+    return "%s%s" % (t, vkey(desc)[1:])
+
+
+def types_of(desc):
+    out = []
+    colls = set(a["typ"] for t in desc["types"] for a in t["attrs"] if a["coll"])
+    for t in desc["types"]:
+        attrs = []
+        for a in t["attrs"]:
+            if a["typ"] == "-":
+                # a, x: integers; everything else: strings (the validated ones with a maximum length)
+                att = {"name": a["name"], "type": {"kind": "int" if a["name"] in ("a", "x") else "string"}}
+                if a["validated"]:
+                    att["val"] = {"maxLen": MAXLEN}
+            else:
+                ref = tname(desc, a["typ"]) + ("Coll" if a["coll"] else "")
+                att = {"name": a["name"], "type": {"kind": "user", "ref": ref}}
+                if a["own"] != "-":
+                    att["view"] = a["own"]
+            if a["required"]:
+                att["required"] = True
+            attrs.append(att)
+        views = [{"name": v["name"], "attrs": [({"name": e["name"], "view": e["view"]} if e["view"] else {"name": e["name"]}) for e in v["attrs"]]}
+                 for v in t["views"]]
+        out.append({"name": tname(desc, t["name"]), "kind": "result", "attrs": attrs, "views": views})
+        if t["name"] in colls or (desc["coll"] and t["name"] == "T"):
+            out.append({"name": tname(desc, t["name"]) + "Coll", "kind": "collection", "base": {"kind": "user", "ref": tname(desc, t["name"])}})
+    # a collection type is declared right after its element type (and so before the type that uses it)
+    res = []
+    for t in out:
+        if t["kind"] == "collection":
+            continue
+        res.append(t)
+        c = next((x for x in out if x["kind"] == "collection" and x["base"]["ref"] == t["name"]), None)
+        if c:
+            res.append(c)
+    return res
+
+
+def service_of(desc):
+    """the service of one variant: `any` (the service method chooses the view) and fix<view> for the views the cases fix in the design"""
+    n = vkey(desc)
+    res = tname(desc, "T") + ("Coll" if desc["coll"] else "")
+
+    def meth(name, fixed=None):
+        m = {"name": name, "result": {"type": {"kind": "user", "ref": res}},
+             "http": {"routes": [{"verb": "GET", "path": "/%s/%s" % (n, name)}], "responses": [{"status": 200}]}}
+        if fixed:
+            m["resultView"] = fixed
+        return m
+    return {"name": n, "methods": [meth("any")] + [meth("fix" + v, v) for v in sorted(desc["fixed"])]}
+
+
+def design_of(g, descs):
+    """one design per graph (all its variants, one service each), so that a graph whose generated code does not compile
+    (C01's business) is set aside alone"""
+    mine = [descs[k] for k in sorted(descs) if descs[k]["g"] == g]
+    return {"api": {"name": "views" + g.lower()}, "types": [t for d in mine for t in types_of(d)], "services": [service_of(d) for d in mine]}
 
 
 def design(g):
-    """one design per graph, so that a graph whose generated code does not compile (C01's business) is set aside alone"""
-    need = {"G1": ["T1"], "G2": ["U2", "T2"], "G3": ["U2", "T2", "T2Coll"], "G4": ["T4"], "G5": ["U5", "T5"], "G6": ["U6", "T6"], "G7": ["T7", "T7Coll"], "G8": ["U8", "T8"]}[g]
-    d = {"api": {"name": "views" + g.lower()}, "types": [t for t in types_design() if t["name"] in need], "services": []}
-    if True:
-        svc = {"name": g.lower(), "methods": []}
-
-        def meth(name, fixed=None):
-            m = {"name": name, "result": {"type": {"kind": "user", "ref": RES[g]}},
-                 "http": {"routes": [{"verb": "GET", "path": "/%s/%s" % (g.lower(), name)}], "responses": [{"status": 200}]}}
-            if fixed:
-                m["resultView"] = fixed
-            return m
-        svc["methods"].append(meth("any"))
-        for v in VIEWS[g]:
-            svc["methods"].append(meth("fix" + v, v))
-        d["services"].append(svc)
-    return d
+    """the design of graph g with all its variants (interface used by C01)"""
+    return design_of(g, catalogue())
 
 
-def value_from_paths(paths):
-    root = {}
-    for p in sorted(paths):
-        cur = root
-        parts = p.split(".")
-        for k in parts[:-1]:
-            cur = cur.setdefault(k, {})
-        leaf = parts[-1]
-        if leaf in ("a", "x") and True:
-            cur.setdefault(leaf, 1 + len(parts))
-        elif leaf in ("b", "y", "d"):
-            cur.setdefault(leaf, leaf * 2)
-        else:
-            cur.setdefault(leaf, {})
-    return root
+# ------------------------------------------------------------------ values
+def value_from_paths(desc, paths, bad=()):
+    """the value with exactly the attribute paths `paths` set (collections: two elements alike); the attributes in `bad`
+    carry a value that breaks their validation"""
+    types = {t["name"]: t for t in desc["types"]}
+
+    def build(t, prefix, depth):
+        o = {}
+        for a in types[t]["attrs"]:
+            p = a["name"] if not prefix else prefix + "." + a["name"]
+            if p not in paths:
+                continue
+            if a["typ"] == "-":
+                if a["name"] in ("a", "x"):
+                    o[a["name"]] = 1 + depth
+                else:
+                    o[a["name"]] = a["name"] * ((MAXLEN + 2) if p in bad else 2)
+            else:
+                e = build(a["typ"], p, depth + 1)
+                o[a["name"]] = [e, dict(e)] if a["coll"] else e
+        return o
+    v = build("T", "", 1)
+    return [v, dict(v)] if desc["coll"] else v
 
 
 def paths_of(obj, prefix="", zero_is_unset=False):
-    """attribute paths that are set; on the Go side a required (non-pointer) field cannot be nil: its zero value
-    is what "unset" looks like there (every value the check sends is non-zero)"""
+    """attribute paths that are set; the elements of a list must agree (else the marker path '!elements-differ'); null and
+    the empty list are "nothing there"; on the Go side a required (non-pointer) field cannot be nil: its zero value is
+    what "unset" looks like there (every value the check sends is non-zero)"""
+    if isinstance(obj, list):
+        ps = [paths_of(e, prefix, zero_is_unset) for e in obj]
+        if ps and all(p == ps[0] for p in ps):
+            return ps[0]
+        return {(prefix + "." if prefix else "") + "!elements-differ"} if ps else set()
     out = set()
     if isinstance(obj, dict):
         for k, v in obj.items():
-            if v is None or (zero_is_unset and v in ("", 0, False)):
+            if v is None or v == [] or (zero_is_unset and v in ("", 0, False)):
                 continue
-            p = prefix + k if not prefix else prefix + "." + k
+            p = k if not prefix else prefix + "." + k
             out.add(p)
             out |= paths_of(v, p, zero_is_unset)
     return out
 
 
-def project_paths(val_obj, paths):
-    """sub-object of val_obj restricted to `paths` (used to fabricate the foreign response body)"""
-    def rec(o, prefix):
-        r = {}
-        for k, v in o.items():
-            p = k if not prefix else prefix + "." + k
-            if p in paths:
-                r[k] = rec(v, p) if isinstance(v, dict) else v
-        return r
-    return rec(val_obj, "")
+def case_key(v):
+    return core.canon([v["cfg"], sorted(v["val"]), sorted(v["bad"])])
 
 
-def scenario(v, sid):
+def scenario(v, desc, sid):
     c = v["cfg"]
-    g = c["g"]
-    val = value_from_paths(v["val"])
-    value = [val, val] if g in COLL else val
+    value = value_from_paths(desc, set(v["val"]), set(v["bad"]))
     meth = "Any" if c["fixed"] == "-" else "Fix" + c["fixed"]
-    s = {"id": sid, "service": g.lower(), "method": meth, "outcome": {"kind": "result", "value": value, "view": "" if c["chosen"] == "bogus" else c["chosen"]}}
+    s = {"id": sid, "service": vkey(c), "method": meth, "outcome": {"kind": "result", "value": value, "view": "" if c["chosen"] == "bogus" else c["chosen"]}}
     if c["chosen"] == "bogus":
-        body = project_paths(val, set(v["pred"]["wireKeys"]))
-        s["rawResp"] = {"status": 200, "headers": {"Content-Type": ["application/json"], "Goa-View": ["bogus"]},
-                        "body": json.dumps([body, body] if g in COLL else body)}
+        body = value_from_paths(desc, set(v["pred"]["wireKeys"]))
+        s["rawResp"] = {"status": 200, "headers": {"Content-Type": ["application/json"], "Goa-View": ["bogus"]}, "body": json.dumps(body)}
     return s
 
 
-def observe(v, events):
+def observe(events):
+    """what the exchange looked like: wire attributes and goa-view header (status 200), then how the client ended:
+    none (result delivered: attributes set) | refused (error although the response had status 200) | server_error
+    (error after a non-200 response) | crash"""
     o = {"wire": None, "view": "none", "client": None, "cerr": "none", "status": 0}
-    coll = v["cfg"]["g"] in COLL
     wr = hg.find(events, "wire_resp")
     if wr:
         w = wr[0]
@@ -129,88 +198,202 @@ def observe(v, events):
             b = json.loads(w.get("body") or "null")
         except Exception:
             b = None
-        if coll and isinstance(b, list):
-            ps = [paths_of(e) for e in b]
-            o["wire"] = sorted(ps[0]) if ps and all(p == ps[0] for p in ps) else "elements-differ"
-        elif isinstance(b, dict):
+        if isinstance(b, (dict, list)) and w["status"] == 200:
             o["wire"] = sorted(paths_of(b))
     cr = hg.find(events, "client_return")
     if cr:
         c = cr[0]
         if c.get("err"):
-            o["cerr"] = "error"
+            o["cerr"] = "refused" if o["status"] == 200 else "server_error"
             o["cerr_msg"] = (c["err"].get("message") or "")[:200]
         else:
             r = c.get("res")
-            if coll and isinstance(r, list):
-                ps = [paths_of(e, zero_is_unset=True) for e in r]
-                o["client"] = sorted(ps[0]) if ps and all(p == ps[0] for p in ps) else "elements-differ"
-            elif isinstance(r, dict):
+            if isinstance(r, (dict, list)):
                 o["client"] = sorted(paths_of(r, zero_is_unset=True))
-    for bad in ("server_panic", "client_panic"):
-        if hg.find(events, bad):
-            o["panic"] = bad
+    else:
+        o["cerr"] = "no-return"
+    for badev in ("server_panic", "client_panic"):
+        if hg.find(events, badev):
+            o["panic"] = badev
+            if badev == "client_panic":
+                o["cerr"] = "crash"
     return o
 
 
+CERR_CLASS = {"none": "none", "invalid": "refused", "unknown_view": "refused", "server_error": "server_error", "crash": "crash"}
+
+
+def problems(v, p, o):
+    """how the observation departs from prediction p of case v ([] = it is that prediction)"""
+    c = v["cfg"]
+    probs = []
+    if o.get("panic") == "server_panic":
+        probs.append("server-crash")
+    if p["sres"] == "error":
+        if o["status"] == 200 or o["cerr"] != "server_error":
+            probs.append("server-rendered")
+        return probs
+    if c["chosen"] != "bogus":
+        if o["status"] != 200:
+            probs.append("server-error")
+            return probs
+        if o["wire"] != sorted(p["wireKeys"]):
+            probs.append("wire-attributes")
+        hv = o["view"]
+        if c["fixed"] == "-":
+            if hv != p["viewHeader"]:
+                probs.append("goa-view-header")
+        elif hv not in ("none", c["fixed"]):
+            probs.append("goa-view-header")
+    want = CERR_CLASS[p["cerr"]]
+    if o["cerr"] != want:
+        probs.append({"crash": "client-crash", "refused": "client-refused-valid-response", "none": "client-accepted-" + ("undefined-view" if c["chosen"] == "bogus" else "invalid-response")}.get(o["cerr"], "client-" + o["cerr"]))
+    elif want == "none" and o["client"] != sorted(p["clientKeys"]):
+        probs.append("client-attributes")
+    return probs
+
+
+def judge(v, preds, o):
+    """[] if the observation is one of the predictions, else its departures from the main prediction (server rendered)"""
+    best = None
+    for p in preds:
+        pr = problems(v, p, o)
+        if not pr:
+            return []
+        if p["sres"] == "ok" and best is None:
+            best = pr
+    return best or problems(v, preds[0], o)
+
+
 def run(ctx):
-    ctx.cov["rule"] = ("cases = (graph, view fixed in the design or chosen by the service incl. the empty and an undefined name, value) enumerated by TLC from "
-                       "Views.tla; non-trivial = the view is a strict subset of the attributes or nesting is involved; distinct = canonical JSON")
-    ctx.mc_expect_violation("mc/MC_Views", consts={"Deviations": '{"views.leak_all_attributes"}'}, label="MC dev")
-    vectors = ctx.gen("mc/MC_Views", "gen/Gen_Views.cfg", label="Gen Views").vectors
-    graphs = ["G1", "G2", "G3", "G4", "G5", "G6", "G7", "G8"]
-    designs = [design(g) for g in graphs]
+    import concurrent.futures as cf
+    ctx.cov["rule"] = ("cases = (graph variant [graph, declaration order of the default view, required/validated mode], view fixed in the design or "
+                       "chosen by the service incl. the empty and an undefined name, value, invalid attribute) enumerated by TLC from Views.tla; "
+                       "non-trivial = the view is a strict subset of the attributes, nesting is involved, or the value is invalid under the view; "
+                       "distinct = canonical JSON")
+    ex = cf.ThreadPoolExecutor(max_workers=6)
+    # vacuity guards and the predictions under the known deviations (singly, then together) run beside the Go pipeline
+    guards = [ex.submit(ctx.mc_expect_violation, "mc/MC_Views", consts={"Deviations": '{"%s"}' % d}, label="MC dev " + d.split(".")[1][:24], workers=2)
+              for d in ["views.leak_all_attributes"] + KNOWN_DEVIATIONS]
+    descs, vectors = gen_vectors(ctx)
+    combos = [[d] for d in KNOWN_DEVIATIONS] + [KNOWN_DEVIATIONS]
+    explain = [(devs, ex.submit(gen_vectors, ctx, devs, "Explain " + "+".join(d.split(".")[1][:12] for d in devs))) for devs in combos]
+    global _CATALOGUE
+    _CATALOGUE = descs
+    unknown = set(d["g"] for d in descs.values()) - set(GRAPHS)
+    if unknown:
+        raise core.Infra("Views.tla has graphs the check does not know: %s" % sorted(unknown))
+    graphs = [g for g in GRAPHS if any(d["g"] == g for d in descs.values())]
+    designs = [design_of(g, descs) for g in graphs]
     pl = hg.Pipeline(ctx, "gen-views")
-    pl.prepare(designs)
+    pl.generate(designs)
     bins = pl.build_runners(designs)
     for i, f in pl.failed.items():
+        if f[0] not in ("compile", "typecheck", "compile-runner"):
+            raise core.Infra("the design of graph %s is not accepted or not generated (only code that does not compile is C01's business): %s" % (graphs[i], str(f)[:1500]))
         ctx.notes.append("graph %s set aside: its generated code does not compile (reported under C01): %s" % (graphs[i], str(f)[:400]))
     ctx.cov["graphs_set_aside"] = [graphs[i] for i in pl.failed]
+    ctx.cov["variants"] = len(descs)
     if len(pl.failed) >= 3:
         raise core.Infra("almost no views design compiles: %s" % pl.failed)
+    # cases: the predictions of one case (several where the server has a choice) are judged together
+    cases, order = {}, []
+    for v in vectors:
+        k = case_key(v)
+        if k not in cases:
+            cases[k] = (v, [])
+            order.append(k)
+        cases[k][1].append(v["pred"])
     scen, meta = {}, {}
-    for n, v in enumerate(vectors):
+    for n, k in enumerate(order):
+        v, preds = cases[k]
         gi = graphs.index(v["cfg"]["g"])
         if gi in pl.failed:
             continue
         sid = "c%d" % n
-        scen.setdefault(gi, []).append(scenario(v, sid))
-        meta[sid] = v
+        scen.setdefault(gi, []).append(scenario(v, descs[vkey(v["cfg"])], sid))
+        meta[sid] = k
     events = pl.run_all(bins, scen)
     nontrivial = set()
-    for sid, v in meta.items():
+    mismatches = []
+    for sid, k in meta.items():
+        v, preds = cases[k]
         ctx.cov["evaluations"] += 1
-        p, c = v["pred"], v["cfg"]
-        if set(p["wireKeys"]) != set(v["val"]) or c["g"] != "G1":
-            nontrivial.add(core.canon([c, v["val"]]))
-        o = observe(v, events[sid])
-        probs = []
-        if o.get("panic"):
-            probs.append(o["panic"])
-        if c["chosen"] == "bogus":
-            if o["cerr"] != "error":
-                probs.append("client-accepted-undefined-view")
-        else:
-            if o["wire"] != sorted(p["wireKeys"]):
-                probs.append("wire-attributes")
-            if o["client"] != sorted(p["clientKeys"]):
-                probs.append("client-attributes" if o["cerr"] == "none" else "client-error")
-            hv = o["view"]
-            if c["fixed"] == "-":
-                if hv != p["viewHeader"]:
-                    probs.append("goa-view-header:%s" % hv)
-            elif hv not in ("none", c["fixed"]):
-                probs.append("goa-view-header:%s" % hv)
-        for pr in probs:
-            ctx.violation("C08/%s/%s/%s" % (c["g"], "fixed" if c["fixed"] != "-" else "chosen:" + (c["chosen"] or "empty"), pr),
-                          "%s: cfg %s value %s predicted %s observed %s" % (pr, json.dumps(c), v["val"], json.dumps(p), json.dumps(o)[:500]),
-                          {"vector": v, "observed": o, "events": events[sid]})
-        if not probs and ctx.cov["evaluations"] % 20 == 1:
-            ctx.sample({"cfg": c, "val": v["val"], "observed": o})
+        c = v["cfg"]
+        main = next((p for p in preds if p["sres"] == "ok"), preds[0])
+        if set(main["wireKeys"]) != set(v["val"]) or c["g"] != "G1" or len(preds) > 1:
+            nontrivial.add(k)
+        if sid not in events:
+            raise core.Infra("no observation for scenario %s" % sid)
+        o = observe(events[sid])
+        probs = judge(v, preds, o)
+        if probs:
+            mismatches.append((sid, k, o, probs))
+        elif ctx.cov["evaluations"] % 400 == 1:
+            ctx.sample({"cfg": c, "val": v["val"], "bad": v["bad"], "observed": o})
     ctx.cov["distinct_nontrivial"] = len(nontrivial)
     ctx.cov["exhaustive"] = True
+    ctx.cov["mismatches"] = len(mismatches)
+    for f in guards:
+        f.result()
+    # a mismatch is explained by the first known deviation (then the pair) under which the model predicts exactly what was observed
+    explained = {}
+    todo = set(k for _, k, _, _ in mismatches)
+    for devs, fut in explain:
+        _, dv = fut.result()
+        dpred = {}
+        for v in dv:
+            dpred.setdefault(case_key(v), []).append(v["pred"])
+        if not set(dpred) <= set(cases):
+            raise core.Infra("the case space changed under deviations %s" % devs)
+        for sid, k, o, _ in mismatches:
+            if k in todo and k in dpred and not judge_exact(cases[k][0], dpred[k], o):
+                explained[k] = "+".join(devs)
+                todo.discard(k)
+    ex.shutdown()
+    for sid, k, o, probs in mismatches:
+        v, preds = cases[k]
+        c = v["cfg"]
+        if k in explained:
+            key = explained[k]
+        else:
+            key = "C08/%s/%s/%s" % (vkey(c), "fixed" if c["fixed"] != "-" else "chosen:" + (c["chosen"] or "empty"), probs[0])
+        ctx.violation(key, "%s: cfg %s value %s invalid %s predicted %s observed %s" % (",".join(probs), json.dumps(c), v["val"], v["bad"], json.dumps(preds), json.dumps(o)[:500]),
+                      {"vector": v, "predictions": preds, "design": descs[vkey(c)], "observed": o, "events": events[sid]})
+    if ctx.selftest or not ctx.quick():
+        selftest(ctx, cases, meta, events)
+
+
+def selftest(ctx, cases, meta, events):
+    """binding: corrupting one observable of exchanges the model accepts must make the judge reject them"""
+    n = 0
+    for sid, k in meta.items():
+        v, preds = cases[k]
+        o = observe(events[sid])
+        if judge(v, preds, o) or o["cerr"] != "none" or not o["wire"]:
+            continue
+        for field, corrupt in (("wire", lambda x: x[:-1]), ("client", lambda x: x + ["zz"]), ("cerr", lambda x: "refused")):
+            o2 = dict(o)
+            o2[field] = corrupt(o[field])
+            if not judge(v, preds, o2):
+                raise core.Infra("self-test: a corrupted %s of %s was accepted" % (field, json.dumps(v["cfg"])))
+        n += 1
+        if n >= 50:
+            break
+    if n == 0:
+        raise core.Infra("self-test: no accepted exchange to corrupt")
+    ctx.cov["selftest_corruptions_rejected"] = 3 * n
+
+
+def judge_exact(v, preds, o):
+    """problems of the observation against the predictions made under a deviation ([] = explained)"""
+    for p in preds:
+        if not problems(v, p, o):
+            return []
+    return ["unexplained"]
 
 
 def replay(ctx, rp):
     print(json.dumps(rp["case"].get("vector"), indent=1)[:3000])
+    print(json.dumps(rp["case"].get("design"), indent=1)[:6000])
     return 0
